@@ -176,6 +176,56 @@ def run(ctx):
             if blk in body and c.target.startswith("octo_squirrel") and _is_relay(prog, c.target):
                 spawned = any(n.endswith("task::spawn::spawn") for n in _direct_consumers(b, t["dest"][0]))
                 ctx.ob("L3", b.defp, f"relay-is-spawned:{last_seg(c.target)}", loc(t["sp"]), spawned, "the per-connection relay future is handed to tokio::spawn" if spawned else "the per-connection relay is awaited inside the accept loop")
+    # ---------------- L5 process-wide containment ------------------------------------------------------
+    # a panic in one flow's task is confined to that task by tokio — unless the process is told otherwise. Three constructs undo that for
+    # every flow at once: a panic hook that can itself panic (a panic while panicking aborts the process), an explicit process exit/abort
+    # in library code, and `panic = "abort"` in a Cargo profile.
+    n_l5 = 0
+    PANICKY = ("Option::unwrap", "Option::expect", "Result::unwrap", "Result::expect", "core::panicking::panic", "core::panicking::panic_fmt",
+               "core::panicking::panic_display", "core::panicking::unreachable_display", "core::panicking::panic_explicit")
+    for b in bodies:
+        for (blk, c, t) in b.calls():
+            if c.target.endswith("panic::set_hook") or c.target.endswith("panicking::set_hook"):
+                n_l5 += 1
+                clos = [a.get("d") for a in c.args if a.get("d") and "closure" in a.get("d", "")]
+                # the hook closure is usually boxed first: take every closure defined in this function that takes the panic info
+                hooks = [x for x in prog.family(b.root) if x.kind == "Closure" and any("PanicHookInfo" in l["ty"].get("s", "") or "PanicInfo" in l["ty"].get("s", "") for l in x.locals[:4])]
+                bad = []
+                for h in hooks:
+                    fh = prog.flat(h.defp)
+                    for (hb, hc, ht) in fh.calls():
+                        if hc.name in PANICKY or hc.target in PANICKY:
+                            bad.append(hc.name)
+                    for hb in fh.rpo():
+                        tt = fh.term(hb)
+                        if tt and tt["k"] == "assert":
+                            bad.append("assert(" + str(tt.get("msg"))[:20] + ")")
+                ok = bool(hooks) and not bad
+                ctx.ob("L5", b.defp, "panic-hook-cannot-panic", loc(t["sp"]), ok,
+                       "the installed panic hook contains no panicking construct" if ok else
+                       f"the process-wide panic hook can itself panic ({sorted(set(bad))[:4] if bad else 'hook body not found'}): a panic while panicking aborts the "
+                       "process, so a panic that tokio would have confined to one flow's task takes every listener and flow down")
+            if c.target in ("std::process::exit", "std::process::abort") and not b.defp.endswith("::main"):
+                n_l5 += 1
+                ctx.ob("L5", b.defp, f"process-{last_seg(c.target)}", loc(t["sp"]), False, f"{c.target} outside main: one code path ends every flow of the process")
+    import os as _os
+    repo_root = getattr(ctx, "repo", None)
+    if repo_root:
+        for root_, dirs_, files_ in _os.walk(repo_root):
+            dirs_[:] = [d for d in dirs_ if d not in (".git", "target")]
+            for f_ in files_:
+                if f_ == "Cargo.toml" or (f_ == "config.toml" and root_.endswith(".cargo")):
+                    try:
+                        txt = open(_os.path.join(root_, f_)).read()
+                    except OSError:
+                        continue
+                    n_l5 += 1
+                    m_ = re.search(r'^\s*panic\s*=\s*"abort"', txt, re.M)
+                    if m_:
+                        ctx.ob("L5", _os.path.relpath(_os.path.join(root_, f_), repo_root), "panic-strategy-is-unwind", _os.path.relpath(_os.path.join(root_, f_), repo_root), False,
+                               'a build profile sets panic = "abort": a panic in one flow\'s task ends the whole process instead of that task', ordinal=False)
+    ctx.note(f"L5: {n_l5} process-wide constructs inspected")
+
     n_spawn = sum(1 for b in bodies for (_, c, _) in b.calls() if c.target.endswith("task::spawn::spawn"))
     ctx.floor("L3", "tokio::spawn sites", 6, n_spawn)
 
